@@ -61,7 +61,9 @@ META = {
                 "combination, lengths 0..4 (0..9 thorough) and following packets, and proves exactly-once on the specification. The "
                 "real DataPacketReceiver is fed TLC-generated streams and random packets (lengths 0..13, 16, 33, "
                 "corrupted CRCs, truncated payloads, not-valid words with any data at any position, following idle / "
-                "link command / header traffic); TLC validates every recorded cycle.",
+                "link command / header traffic; every ordered pair 'packet of kind X, then two good packets' for X in "
+                "good / corrupted CRC-32, CRC-16, CRC-5 / payload ended by DPPEND or DPPABORT in any word / zero-length / "
+                "deferred header); TLC validates every recorded cycle.",
         "note": "Free: report latency (up to 2 cycles after the 2nd valid word following the CRC-32), a header with bad "
                 "CRCs may be reported bad once or not at all. Stimuli are split into clean (no trigger of an open "
                 "finding) and witness classes. Stimulus packets are built with a Python CRC; every verdict is TLC's.",
@@ -73,13 +75,14 @@ META = {
                 "the emitter (exactly EmitN consecutive sets per burst, TS2 link-functionality bits, done with the last "
                 "word) and the detector (one detection per DetN complete consecutive sets, not-valid words ignored, "
                 "configuration reported, nothing on other data). TLC explores every start/ready schedule of the emitter "
-                "and every legal interleaving of set words, foreign / near-miss words and gaps for the detector, and "
+                "and every stream of whole sets of four kinds (matching, other kind sharing the first word, near-miss, foreign) with gaps and stray words for the detector, and "
                 "proves ExactlyN and OncePerBurst. Real TSEmitter / TSBurstDetector instances (TS1 16/8, TS2 16/8, "
                 "TSEQ detect 32, scaled bursts 1..3) run emitter bursts looped into the detector and composed word "
                 "streams (bursts of N-1, N, N+1, 2N(+1) sets, gaps inside sets, truncated / near-miss sets, foreign "
                 "words); TLC validates every cycle.",
-        "note": "Re-synchronisation after a breaking word and foreign words after an idle gap are left to the "
-                "implementation (Env assumptions in DetHazard). TSEQ's real 65536-set emitter burst is scaled through "
+        "note": "No Env assumption on the detector's word stream (streams of whole sets of several kinds in any "
+                "order, gaps between and inside sets, stray words); stimuli that trigger an open finding are kept in "
+                "a witness class. TSEQ's real 65536-set emitter burst is scaled through "
                 "the constructor parameter. Free: 1 idle cycle before the first word, detection latency 1..3 cycles.",
         "technique": "TLA+ relation spec, TLC exhaustive + batch trace validation of pysim traces",
         "design_ref": "DESIGN.md §5 C43",
@@ -883,8 +886,9 @@ def stim_crc32(bs):
     return [_val(f[8 * j:8 * j + 8]) for j in range(4)]
 
 
-def data_packet_words(dw, lc, pl, c5=True, c16=True, c32=True, cut=None):
-    """Words of a data packet; c5/c16/c32=False flip one bit of that CRC; cut=n ends the payload with DPPEND after n bytes."""
+def data_packet_words(dw, lc, pl, c5=True, c16=True, c32=True, cut=None, abort=False):
+    """Words of a data packet; c5/c16/c32=False flip one bit of that CRC; cut=n ends the payload after n bytes
+    with DPPEND (or, abort=True, with DPPABORT = EDB EDB EDB EPF)."""
     crc16 = stim_crc16(dw) ^ (0 if c16 else 1 << 3)
     lcw = (lc | stim_crc5(lc) << 11) ^ (0 if c5 else 1 << 12)
     crc = stim_crc32(pl)
@@ -894,7 +898,8 @@ def data_packet_words(dw, lc, pl, c5=True, c16=True, c32=True, cut=None):
         sy = [(b, 0) for b in pl] + [(b, 0) for b in crc]
     else:
         sy = [(b, 0) for b in pl[:cut]]
-    sy += [(END, 1), (END, 1), (END, 1), (EPF, 1)]
+    e = EDB if (abort and cut is not None) else END
+    sy += [(e, 1), (e, 1), (e, 1), (EPF, 1)]
     while len(sy) % 4:
         sy.append((0, 0))
     ws = [HPSTART, {"d": dw[0:4], "c": 0, "v": True}, {"d": dw[4:8], "c": 0, "v": True},
@@ -919,12 +924,14 @@ def rx_stream(rng, packets, gap_p, avoid_b, tail=6):
         n = pk["len"]
         dw = bytes_le((rng.getrandbits(27) << 5) | 8, 4) + bytes_le(rng.getrandbits(16) | n << 16, 4) + bytes_le(rng.getrandbits(32), 4)
         pl = [rng.choice([0, 0xFF, rng.getrandbits(8), rng.getrandbits(8)]) for _ in range(n)]
-        ws = data_packet_words(dw, rng.getrandbits(11), pl, pk.get("c5", True), pk.get("c16", True),
-                               pk.get("c32", True), pk.get("cut"))
+        ws = data_packet_words(dw, rng.getrandbits(11) | (1024 if pk.get("hdr_only") else 0), pl, pk.get("c5", True),
+                               pk.get("c16", True), pk.get("c32", True), pk.get("cut"), pk.get("abort", False))
+        if pk.get("hdr_only"):        # a payload-less (deferred) data header
+            ws = ws[:5]
         last_payload = 5 + (n + 3) // 4          # index in ws of the word holding the last payload byte (n > 0)
         for j, w in enumerate(ws):
             stream.append(w)
-            after_last_payload = n > 0 and j == last_payload and pk.get("cut") is None
+            after_last_payload = n > 0 and j == last_payload and pk.get("cut") is None and not pk.get("hdr_only")
             nxt = ws[j + 1] if j + 1 < len(ws) else NOWORD
             if after_last_payload:
                 if pk.get("b_gap"):
@@ -1095,6 +1102,35 @@ def check_C40(rep):
             rest = rx_stream(rng, [{"len": n, "c32": False, "follow": "idle"}, {"len": rng.choice(lens[1:13]), "c32": False}], 0.0, True)
             run(None, 0.0, True, "witness-E", "after-payloadless-header", stream=[word(0, 0)] + hdr_only + rest)
 
+    # ordered pairs of packet kinds: every kind of first packet (good, CRC-32 / CRC-16 / CRC-5 corrupted, payload cut
+    # short by DPPEND or DPPABORT in any of its words, zero-length good / corrupted, payload-less deferred header),
+    # followed by a good packet and another good one -- back to back, with idle words, and with not-valid words
+    # at every offset of the history (a different sweep offset per trace)
+    def first_kinds(n):
+        ks = [("good", {}), ("bad32", {"c32": False}), ("bad16", {"c16": False}), ("bad5", {"c5": False}),
+              ("zlp", {"len": 0}), ("zlp-bad32", {"len": 0, "c32": False}), ("deferred", {"hdr_only": True})]
+        for wi in range((n + 3) // 4):
+            c = min(n - 1, 4 * wi + rng.randrange(4))
+            ks.append(("cut@%d" % wi, {"cut": c, "abort": rng.random() < 0.5}))
+        return ks
+    pair_lens = [rng.randrange(1, 4), rng.randrange(4, 9), rng.randrange(9, 14)] if quick else list(range(1, 14)) + [33]
+    for n in pair_lens:
+        for name, kw in first_kinds(n):
+            for mode in (0, 1, 2):
+                first = dict({"len": n}, **kw)
+                first["follow"] = ["none", "idle", "none"][mode]
+                pks = [first, {"len": rng.randrange(1, 13), "follow": ["none", "idle", "none"][mode]},
+                       {"len": rng.choice([0, rng.randrange(1, 13)]), "follow": "idle"}]
+                st = rx_stream(rng, pks, 0.0, True)
+                if mode == 2:           # not-valid words at a sweep offset (and a second one a few words later)
+                    off = rng.randrange(1, max(2, len(st) - 6))
+                    for o in sorted({off, min(len(st) - 1, off + rng.randrange(1, 8))}, reverse=True):
+                        st.insert(o, dict(rng.choice([NOWORD, st[o], st[o - 1], HPSTART]), v=False))
+                recs = bench.run(st)
+                rep.add_eval(len(recs))
+                witness.append((recs, {"class": "pairs", "origin": "%s(len %d)->good->good mode %d" % (name, n, mode)}))
+                rep.nontriv(("pair", name, n % 4, mode, sum(r["good"] for r in recs), sum(r["bad"] for r in recs)))
+
     # spec -> code: streams generated by TLC from the model's Env (they contain good packets: witness class)
     sim_cfg = tlc.render_cfg(_cfg("MCDataRx.cfg.tmpl"), {"MaxLen": 9, "MaxPackets": 3, "MaxGaps": 4})
     sim_cfg = "\n".join(l for l in sim_cfg.splitlines() if not l.startswith("INVARIANT"))
@@ -1210,85 +1246,159 @@ def ts_emitter_stim(rng, set_len, emit_n, bursts, has_cfg):
     return stim
 
 
-def ts_detector_stream(rng, bench, det_n, events):
-    """Word stream for the detector obeying the Env assumptions of TrainingSets.tla (see DetHazard)."""
+def ts_words(bench, kind, rng, cfg=0):
+    """The words of one whole set: 'm' matching; 'o' a set of another kind sharing the first word (TS2 for a TS1
+    detector, ...: every later word differs); 'n1'..: near-miss, only word k (0-based, >= 1) differs in one bit or
+    its ctrl mask; 'x' a set sharing nothing (e.g. TSEQ for a TS detector)."""
     sw = bench.set_words
     L = len(sw)
-    out = [NOWORD]
-    counting = False
-
-    def gap(n=1):
-        for _ in range(n):
-            out.append(dict(rng.choice([NOWORD, sw[0], sw[-1], word(rng.getrandbits(32), 0)]), v=False))
-
-    def cfg_word(c):
-        w = dict(sw[1])
-        w["d"] = [rng.choice([0, 0, rng.getrandbits(8)]), c, w["d"][2], w["d"][3]]
-        return w
-
-    def garbage():
-        while True:
-            w = word(rng.getrandbits(32), rng.choice([0, 0, 0, 15, 1]))
-            if w["d"] != sw[0]["d"]:
-                return w
-    for ev in range(events):
-        kind = rng.choice(["burst", "burst", "burst", "garbage_adjacent", "truncated", "near_miss", "noise"])
-        if kind == "burst":
-            m = rng.choice([1, det_n - 1, det_n, det_n, det_n + 1, 2 * det_n, 2 * det_n + 1])
-            c = rng.choice([0, 1, 4, 8, 9, 13]) if bench.has_cfg else 0
-            gp = rng.choice([0.0, 0.0, 0.2, 0.5])
-            for si in range(max(m, 1)):
-                if bench.has_cfg and rng.random() < 0.15:
-                    c = rng.choice([0, 1, 4, 8, 9, 13])
-                for k in range(L):
-                    out.append(cfg_word(c) if (bench.has_cfg and k == 1) else sw[k])
-                    if rng.random() < gp and not (si == max(m, 1) - 1 and k == L - 1):
-                        gap(rng.choice([1, 1, 2, 5]))
-            # the last word of the burst is left without a gap so that an adjacent foreign word may follow
-            counting = True
-            continue
-        if kind == "garbage_adjacent":
-            out.append(garbage())
-            gap(rng.choice([1, 2]))
-        elif kind == "truncated":
-            j = rng.randrange(1, L)
-            gap(1)
-            for k in range(j):
-                out.append(sw[k])
-            w = garbage()
-            out.append(w)
-            gap(rng.choice([1, 2]))
-        elif kind == "near_miss":
-            k = rng.randrange(1, L)
-            gap(1)
-            for q in range(L):
-                w = dict(sw[q])
-                if q == k:
-                    w = dict(w, d=list(w["d"]))
-                    if rng.random() < 0.5:
-                        w["d"][3 if (bench.has_cfg and q == 1) else rng.randrange(4)] ^= 1 << rng.randrange(8)
-                    else:
-                        w["c"] = rng.choice([1, 8, 15])
-                out.append(w)
-                if q == k:
-                    gap(1)
-            gap(1)
-        else:
-            if counting:               # a foreign word after an idle gap is only generated at count zero:
-                out.append(garbage())  # break the count first, with a foreign word right behind the set
-            gap(rng.choice([1, 3]))
-            out.append(garbage())
-            gap(1)
-        counting = False               # every event other than a burst leaves the count at zero, after a gap
-    if counting:
-        out.append(garbage())
-    gap(1)
-    out += [word(0, 0), NOWORD, NOWORD, NOWORD, NOWORD]
+    out = []
+    for k in range(L):
+        w = {"d": list(sw[k]["d"]), "c": sw[k]["c"], "v": True}
+        if bench.has_cfg and k == 1:
+            w["d"][0] = rng.choice([0, 0, rng.getrandbits(8)])
+            w["d"][1] = cfg
+        if kind == "o" and k >= 1:
+            w["d"] = [w["d"][0], w["d"][1], w["d"][2] ^ 0x0F, w["d"][3] ^ 0x0F]
+        elif kind == "x":
+            w["d"] = [b ^ 0x5A for b in w["d"]]
+            w["c"] = 1 if k == 0 else 0
+        elif kind.startswith("n") and k == int(kind[1:]):
+            if rng.random() < 0.6:
+                w["d"][3 if (bench.has_cfg and k == 1) else rng.randrange(4)] ^= 1 << rng.randrange(8)
+            else:
+                w["c"] = rng.choice([1, 8, 15])
+        out.append(w)
     return out
 
 
+def ts_detector_stream(rng, bench, det_n, events, hazards=()):
+    """Word stream built from whole sets of several kinds in any order, idle gaps between and inside sets,
+    and stray foreign words.  Without `hazards` it avoids the two situations in which the unrepaired
+    detector is known to differ (open findings): 'gap_foreign' = a word that is not a first word arriving
+    after an idle gap while sets are counted; 'adjacent' = a set beginning in the cycle right after a
+    breaking word (or in the first cycle)."""
+    sw = bench.set_words
+    L = len(sw)
+    out = [NOWORD] if "adjacent" not in hazards else []
+    counting = False          # complete sets may be counted at this point
+    after_break = not out     # the previous cycle held a breaking word (or nothing at all yet)
+    gapped = True             # a not-valid cycle since the last valid word
+
+    def gap(n=1):
+        nonlocal after_break, gapped
+        for _ in range(n):
+            out.append(dict(rng.choice([NOWORD, sw[0], sw[-1], word(rng.getrandbits(32), 0)]), v=False))
+        after_break, gapped = False, True
+
+    def emit_set(kind, cfg, gp):
+        nonlocal counting, after_break, gapped
+        ws = ts_words(bench, kind, rng, cfg)
+        first_matches = kind != "x"
+        if after_break and first_matches and "adjacent" not in hazards:
+            gap(1)
+        if counting and gapped and not first_matches and "gap_foreign" not in hazards:
+            # a foreign first word right behind the run is fine; after a gap it is the open finding's trigger
+            return
+        for k, w in enumerate(ws):
+            out.append(w)
+            gapped = False
+            breaking = (kind == "o" and k == 1) or (kind == "x" and k == 0 and counting) or \
+                       (kind.startswith("n") and k == int(kind[1:]))
+            after_break = breaking
+            if breaking:
+                counting = False
+            if k < L - 1 and rng.random() < gp and (kind == "m" or not counting):
+                gap(rng.choice([1, 1, 2, 4]))
+        if kind == "m":
+            counting = True
+    kinds = ["m", "o", "x"] + ["n%d" % k for k in range(1, L)]
+    for ev in range(events):
+        r = rng.random()
+        c = rng.choice([0, 1, 4, 8, 9, 13]) if bench.has_cfg else 0
+        gp = rng.choice([0.0, 0.0, 0.2, 0.5])
+        if r < 0.55:
+            m = rng.choice([1, det_n - 1, det_n, det_n, det_n + 1, 2 * det_n, 2 * det_n + 1, max(1, det_n // 2)])
+            for si in range(max(m, 1)):
+                if bench.has_cfg and rng.random() < 0.15:
+                    c = rng.choice([0, 1, 4, 8, 9, 13])
+                emit_set("m", c, gp)
+                if rng.random() < gp:
+                    gap(rng.choice([1, 2, 5]))
+        elif r < 0.9:
+            for _ in range(rng.choice([1, 1, 2])):
+                emit_set(rng.choice(kinds[1:]), c, gp)
+                if rng.random() < 0.4 and (not counting or "gap_foreign" in hazards):
+                    gap(rng.choice([1, 2]))
+        else:   # stray foreign word, not set-aligned
+            if counting and gapped and "gap_foreign" not in hazards:
+                continue
+            w = word(rng.getrandbits(32), rng.choice([0, 0, 1]))
+            if w["d"] != sw[0]["d"]:
+                out.append(w)
+                after_break, gapped, counting = True, False, False
+    gap(4)
+    return out
+
+
+def ts_replay(trace, bench, det_n):
+    """Ideal detector replayed over a recorded trace (classification of rejections only): for every cycle, how
+    the count was last voided and whether the current run began in the cycle after a breaking word."""
+    sw = bench.set_words
+    L = len(sw)
+
+    def is_word(w, k):
+        if w["c"] != sw[k]["c"]:
+            return False
+        if bench.has_cfg and k == 1:
+            return w["d"][2:] == sw[1]["d"][2:]
+        return w["d"] == sw[k]["d"]
+    k = cnt = 0
+    info = []
+    last_void = None          # "gap_foreign" if the last voiding word came after an idle gap at k = 0 with cnt > 0
+    run_adjacent = True       # the run in progress began right after a breaking word / in the first cycle
+    due_adjacent = False      # ... same, for the run that made the latest detection due
+    prev_break = True
+    prev_valid = False
+    for r in trace:
+        w = r["iw"]
+        if w["v"]:
+            if is_word(w, k):
+                if k == 0 and cnt == 0:
+                    run_adjacent = prev_break
+                k += 1
+                if k == L:
+                    k, cnt = 0, (cnt + 1) % det_n
+                    if cnt == 0:
+                        due_adjacent = run_adjacent
+                prev_break = False
+            else:
+                if cnt > 0 or k > 0:
+                    last_void = "gap_foreign" if (k == 0 and not prev_valid) else "other"
+                k, cnt = (1 if is_word(w, 0) else 0), 0
+                prev_break = True
+                if k == 1:
+                    run_adjacent = True
+        else:
+            prev_break = False
+        prev_valid = w["v"]
+        info.append((last_void, due_adjacent))
+    return info
+
+
+_TS_BENCHES = {}
+
+
 def classify_ts(trace, matched, status, meta):
-    return {"clause": status, "pattern": "other"}
+    pattern = "other"
+    bench = _TS_BENCHES.get((meta.get("set"), meta.get("emit_n"), meta.get("det_n")))
+    if bench is not None and status in ("det_spurious", "det_missing") and 0 < matched <= len(trace):
+        last_void, run_adjacent = ts_replay(trace[:matched], bench, meta["det_n"])[-1]
+        if status == "det_spurious" and last_void == "gap_foreign":
+            pattern = "run_not_voided_by_foreign_word_after_idle_gap"
+        elif status == "det_missing" and run_adjacent:
+            pattern = "set_right_after_breaking_word_not_counted"
+    return {"clause": status, "pattern": pattern}
 
 
 def check_C43(rep):
@@ -1299,14 +1409,16 @@ def check_C43(rep):
     rep.assume("emitter: start rises only while idle (it may be held or dropped at any time; held over `done` starts "
                "the next burst), request bits change only while idle; up to 1 idle cycle before the first word is free")
     rep.assume("detector: `detected` 1..3 cycles after the last word; reported configuration = that of any counted set; "
-               "re-synchronisation after a breaking word is not constrained: the next set starts neither with the "
-               "breaking word nor in the cycle after it; only set words follow an idle gap between counted sets; "
-               "the first cycle after reset is not valid")
+               "any valid word that is not the next word of the set in progress voids the count (whole sets of another "
+               "kind, near-miss sets, foreign words, set-aligned or not, behind an idle gap or not) and starts a new set "
+               "if it is a first word; not-valid words are ignored everywhere")
 
-    for sub, label in ([({"SetWords": "TS2Words", "FirstCtrl": 15, "HasCfg": "TRUE", "DetN": 2, "MaxWords": 17, "MaxGaps": 2}, "TS2 x2"),
-                        ({"SetWords": "TinyWords", "FirstCtrl": 15, "HasCfg": "TRUE", "DetN": 3, "MaxWords": 13, "MaxGaps": 3}, "2-word set x3")]
-                       + ([] if quick else [({"SetWords": "TS1Words", "FirstCtrl": 15, "HasCfg": "FALSE", "DetN": 3, "MaxWords": 25, "MaxGaps": 2}, "TS1 x3")])):
-        _mc(rep, "MCTsDetector", tlc.render_cfg(_cfg("MCTsDetector.cfg.tmpl"), sub), "MCTsDetector (%s)" % label, sub)
+    for sub, label in ([({"SetWords": "TinyWords", "FirstCtrl": 15, "HasCfg": "TRUE", "DetN": 2, "MaxSets": 4, "MaxGaps": 1, "MaxStray": 1}, "2-word sets of 4 kinds, x2"),
+                        ({"SetWords": "TS2Words", "FirstCtrl": 15, "HasCfg": "TRUE", "DetN": 2, "MaxSets": 3, "MaxGaps": 1, "MaxStray": 1}, "TS2-shaped sets of 4 kinds, x2")]
+                       + ([] if quick else [({"SetWords": "TinyWords", "FirstCtrl": 15, "HasCfg": "TRUE", "DetN": 2, "MaxSets": 5, "MaxGaps": 1, "MaxStray": 1}, "2-word sets, 5 sets"),
+                                            ({"SetWords": "TinyWords", "FirstCtrl": 15, "HasCfg": "TRUE", "DetN": 3, "MaxSets": 5, "MaxGaps": 2, "MaxStray": 0}, "2-word sets x3")])):
+        _mc(rep, "MCTsDetector", tlc.render_cfg(_cfg("MCTsDetector.cfg.tmpl"), sub), "MCTsDetector (%s)" % label, sub,
+            allow_uncovered=("Stray",) if sub["MaxStray"] == 0 else ())
     for sub, label in [({"SetWords": "TS2Words", "FirstCtrl": 15, "HasCfg": "TRUE", "EmitN": 2, "MaxStartLat": 1, "MaxBursts": 2}, "TS2 x2"),
                        ({"SetWords": "TinyWords", "FirstCtrl": 15, "HasCfg": "TRUE", "EmitN": 3, "MaxStartLat": 1, "MaxBursts": 3}, "2-word set x3")]:
         _mc(rep, "MCTsEmitter", tlc.render_cfg(_cfg("MCTsEmitter.cfg.tmpl"), sub), "MCTsEmitter (%s)" % label, sub)
@@ -1317,6 +1429,7 @@ def check_C43(rep):
         configs += [("TS2Words", 5, 3), ("TS1Words", 1, 1), ("TSEQWords", 64, 4)]
     for set_name, emit_n, det_n in configs:
         bench = TsBench(set_name, emit_n, det_n)
+        _TS_BENCHES[(set_name, emit_n, det_n)] = bench
         L = len(bench.set_words)
         items = []
         n_tr = (3 if quick else 12)
@@ -1325,13 +1438,47 @@ def check_C43(rep):
             rep.add_eval(len(recs))
             items.append((recs, {"set": set_name, "emit_n": emit_n, "det_n": det_n, "origin": origin}))
             rep.nontriv((set_name, emit_n, det_n, origin, sum(r["det"] for r in recs), sum(r["done"] for r in recs)))
+
+        def feed(ws, origin):
+            add(bench.run([dict(EM_IDLE, iw=w) for w in ws]), origin)
         for _ in range(n_tr):
             # emitter alone + looped into the detector
             st = ts_emitter_stim(rng, L, emit_n, bursts=rng.randrange(1, 4), has_cfg=bench.has_cfg)
             add(bench.run(st, loop=True), "emitter->detector")
-            # detector on composed streams
-            ws = ts_detector_stream(rng, bench, det_n, events=rng.randrange(4, 10) if det_n <= 8 else 4)
-            add(bench.run([dict(EM_IDLE, iw=w) for w in ws]), "detector-stream")
+            # detector on streams composed of whole sets of several kinds, gaps, stray words
+            feed(ts_detector_stream(rng, bench, det_n, events=rng.randrange(4, 10) if det_n <= 8 else 4), "detector-stream")
+        # runs of matching sets split by whole sets of another kind / near-miss sets, back to back and with idle
+        # gaps between the sets:  a x M, b x other, (N - a) x M  must not be reported;  then N x M must be
+        for kind in ["o"] + ["n%d" % k for k in range(1, L)]:
+            for gapped in (False, True):
+                a = rng.randrange(1, det_n) if det_n > 1 else 1
+                ws = [NOWORD]
+                seq = ["m"] * a + [kind] * rng.choice([1, 2]) + ["m"] * (det_n - a if det_n > 1 else 0)
+                seq += [kind] + ["m"] * det_n
+                prev = None
+                for q in seq:
+                    brk_last = prev is not None and prev.startswith("n") and int(prev[1:]) == L - 1
+                    if (gapped and prev is not None and q != "x") or brk_last:
+                        ws += [NOWORD] * (rng.choice([1, 2]) if gapped else 1)
+                    ws += ts_words(bench, q, rng, 9 if bench.has_cfg else 0)
+                    prev = q
+                feed(ws + [NOWORD] * 5, "split-run-%s%s" % (kind, "-gaps" if gapped else ""))
+        # witness stimuli of the two open findings (accepted once the detector is repaired)
+        for _ in range(2 if quick else 8):
+            a = rng.randrange(1, det_n) if det_n > 1 else 1
+            ws = [NOWORD]
+            for q in ["m"] * a:
+                ws += ts_words(bench, q, rng)
+            ws += [NOWORD] * rng.choice([1, 3]) + rng.choice([ts_words(bench, "x", rng), [word(rng.getrandbits(32) | 1, 0)]])
+            ws += [NOWORD] * rng.choice([1, 2])
+            for q in ["m"] * max(det_n - a, 1):
+                ws += ts_words(bench, q, rng)
+            feed(ws + [NOWORD] * 5, "witness-foreign-after-gap")
+            ws = [NOWORD] + ts_words(bench, "n%d" % (L - 1), rng)
+            for q in ["m"] * det_n:
+                ws += ts_words(bench, q, rng)
+            feed(ws + [NOWORD] * 5, "witness-set-right-after-break")
+            feed(ts_detector_stream(rng, bench, det_n, events=6, hazards=("adjacent", "gap_foreign")), "witness-stream")
         cfg = tlc.render_cfg(_cfg("TrainingSetsTrace.cfg.tmpl"),
                              {"SetWords": set_name, "FirstCtrl": TS_SETS[set_name][1],
                               "HasCfg": "TRUE" if bench.has_cfg else "FALSE", "EmitN": emit_n, "DetN": det_n})
